@@ -188,6 +188,26 @@ func c15KeyCheck(c c15Key) (fs []rep.Finding) {
 			fs = append(fs, rep.F("argument-buffer-modified", "a constructor wrote into the caller's hash / key buffer or the bytes behind it"))
 		}
 	}()
+	// the caller's buffers held ANOTHER hash / key a moment ago and were handed to the same constructors
+	// (a loop that decodes each key into one reused buffer): what is built next is built from what the
+	// buffer holds now
+	{
+		for i := range hashArg {
+			hashArg[i] ^= 0x55
+		}
+		_, _ = bscript.NewP2PKHFromPubKeyHash(hashArg)
+		_, _ = bscript.NewAddressFromPublicKeyHash(hashArg, c.Mainnet)
+		_, _ = bscript.NewAddressFromPublicKeyHash(hashArg, !c.Mainnet)
+		copy(hashArg, hash)
+		if pub != nil {
+			for i := 1; i < len(pubArg); i++ {
+				pubArg[i] ^= 0x55
+			}
+			_, _ = bscript.NewP2PKHFromPubKeyBytes(pubArg)
+			_ = bt.NewTx().AddP2PKHOutputFromPubKeyBytes(pubArg, 1)
+			copy(pubArg, pub)
+		}
+	}
 	chkAddr := func(api string, a *bscript.Address, err error) {
 		if err != nil {
 			fs = append(fs, rep.F("derive-error|"+api, err.Error()))
@@ -379,7 +399,7 @@ func testPrivKeys(n int) [][]byte {
 
 func init() {
 	p := register(&Prop{ID: "C15", Level: "exploration",
-		Rule: "exhaustive: for 12 (quick) / 28 (thorough) 20-byte hashes (all-zero, leading zeros, all-ff, structured) and 6/12 keys, both networks: derivation through every address/P2PKH constructor (incl. the two extended-key constructors, whose derivation path is the library's own random choice and is followed by the oracle) compared with a reference Base58Check encoder and the canonical 25-byte script; and for every derived address EVERY single-character substitution (58 symbols x every position, plus 5 non-ASCII replacements per position: code points U+01xx/U+20xx/U+100xx whose low byte is the replaced character, the character with the high bit set, 0xff), adjacent transposition, insertion (58 symbols + 6 non-Base58 characters at every gap incl. a leading '1') and deletion, plus wrong version bytes (0x05,0xc4,0x01), 24/26-byte payloads with correct checksums and over-long strings whose value is the payload plus k*2^200 (k in 9 values incl. multiples of 58); keys include two whose X coordinate begins with a zero byte, and well-formed BIP276 texts (which are not addresses); each through NewAddressFromString, NewP2PKHFromAddress, PayToAddress, ChangeToAddress and ValidateAddress: accepted iff the reference decoder accepts. distinct_nontrivial = distinct strings judged",
+		Rule: "exhaustive: for 12 (quick) / 28 (thorough) 20-byte hashes (all-zero, leading zeros, all-ff, structured) and 6/12 keys, both networks: derivation through every address/P2PKH constructor (incl. the two extended-key constructors, whose derivation path is the library's own random choice and is followed by the oracle) compared with a reference Base58Check encoder and the canonical 25-byte script; and for every derived address EVERY single-character substitution (58 symbols x every position, plus 5 non-ASCII replacements per position: code points U+01xx/U+20xx/U+100xx whose low byte is the replaced character, the character with the high bit set, 0xff), adjacent transposition, insertion (58 symbols + 6 non-Base58 characters at every gap incl. a leading '1') and deletion, plus wrong version bytes (0x05,0xc4,0x01), 24/26-byte payloads with correct checksums and over-long strings whose value is the payload plus k*2^200 (k in 9 values incl. multiples of 58); keys include two whose X coordinate begins with a zero byte, well-formed BIP276 texts (which are not addresses) and texts that merely begin like the BIP276 script prefix; hash / key argument buffers that held another hash / key in an earlier call; each through NewAddressFromString, NewP2PKHFromAddress, PayToAddress, ChangeToAddress and ValidateAddress: accepted iff the reference decoder accepts. distinct_nontrivial = distinct strings judged",
 	})
 	sStr := NewSpace(p, "strings", c15StrCheck)
 	sKey := NewSpace(p, "derive", c15KeyCheck)
@@ -484,6 +504,10 @@ func init() {
 							yield(c15Str{bscript.EncodeBIP276(bscript.BIP276{Prefix: pf, Version: vn[0], Network: vn[1], Data: pl})})
 						}
 					}
+				}
+				// texts that merely BEGIN like the BIP276 script prefix (checksum valid for the text as it is)
+				for _, pf := range []string{"bitcoin-scripthash", "bitcoin-scripts", "bitcoin-script-v2", "bitcoin-script ", "bitcoin-script" + addr} {
+					yield(c15Str{bscript.EncodeBIP276(bscript.BIP276{Prefix: pf, Version: 1, Network: 1, Data: refP2PKH(hash)})})
 				}
 				yield(c15Str{""})
 				yield(c15Str{"1"})
